@@ -330,7 +330,19 @@ PROPS = {
             'MF.Props.C05.offset_meaning',
             'MF.Props.C05.chains_static',
             'MF.Props.C05.chains_complete',
-            'MF.Props.C05.query_pos_first_token'],
+            'MF.Props.C05.query_pos_first_token',
+            'MF.Props.C05.item_span',
+            'MF.Props.C05.alias_span',
+            'MF.Props.C05.table_span',
+            'MF.Props.C05.from_span',
+            'MF.Props.C05.where_span',
+            'MF.Props.C05.having_span',
+            'MF.Props.C05.limit_span',
+            'MF.Props.C05.expr_slot_span',
+            'MF.Props.C05.lexed_tokensOK',
+            'MF.Props.C05.span_facts',
+            'MF.Props.C05.span_nested',
+            'MF.Props.C05.span_ordered'],
         "channels": ['TREE', 'TYPE', 'EXPRPOS', 'QUERY'],
         "pred": True,
         "level": 'proof',
